@@ -698,6 +698,23 @@ func (vf *VFlow) callResult(t ssa.Value, idx int, fl uint8, out LabelSet, seen m
 	if len(cargs) > 0 {
 		ca = "(" + strings.Join(cargs, ",") + ")"
 	}
+	// (url.Values).Get on anything but the request's merged Form (URL.Query(), PostForm, a parsed copy) reads another
+	// set of parameters: the leaf says so
+	if name == "(net/url.Values).Get" && len(com.Args) > 0 {
+		recv := "other"
+		switch x := vf.ctxArg(com.Args[0]).(type) {
+		case *ssa.UnOp:
+			if fa, isFA := x.X.(*ssa.FieldAddr); isFA && fieldOwner(fa.X.Type()) == "http.Request" {
+				recv = fname(fieldVar(fa.X.Type(), fa.Field))
+			}
+		case *ssa.Call:
+			recv = shortCallee(calleeName(x))
+		}
+		if recv != "Form" {
+			out.add(fmt.Sprintf("ext:(url.Values).Get[%s]%s#%d", recv, ca, idx), fl)
+			return
+		}
+	}
 	out.add(fmt.Sprintf("ext:%s%s#%d", shortCallee(name), ca, idx), fl)
 }
 
@@ -1219,6 +1236,15 @@ func (vf *VFlow) CallArgSources(match func(ssa.CallInstruction) bool, idx int) (
 
 // matchLabel: glob-like match where '*' matches any run of characters.
 func matchLabel(pat, s string) bool {
+	// r.Form.Get(name) (after ParseForm) and r.FormValue(name) read the same merged request parameters: one leaf
+	canon := func(l string) string {
+		const a, b = `ext:(url.Values).Get("`, `ext:(*http.Request).FormValue("`
+		if strings.HasPrefix(l, a) {
+			return b + strings.TrimPrefix(l, a)
+		}
+		return l
+	}
+	pat, s = canon(pat), canon(s)
 	if !strings.Contains(pat, "*") {
 		return pat == s
 	}
